@@ -148,9 +148,16 @@ def spline(draw, kinds=("curve", "surface", "volume"), rational=None, max_p=4, m
     if kind == "volume":
         max_p, max_extra = min(max_p, vol_max_p), min(max_extra, vol_max_extra)
     degs, szs = draw(sizes_degrees(pdim, max_p, max_extra, different=different, min_p=min_p))
+    twin = pdim >= 2 and not different and draw(st.integers(0, 7)) == 0
+    if twin:
+        # the first two directions are given the same degree, size and knot vector (values equal in two directions are as
+        # valid as any; build.make then hands the very same list object to both setters, as a caller with one list would)
+        degs[1], szs[1] = degs[0], szs[0]
     rat = draw(st.booleans()) if rational is None else rational
     uncl = draw(st.booleans()) if unclamped == "maybe" else bool(unclamped)
     kvs = [draw(knot_vector(p, n, unclamped=uncl, style=kv_style, micro=micro)) for p, n in zip(degs, szs)]
+    if twin:
+        kvs[1] = list(kvs[0])
     norm = True if normalize is None else (draw(st.booleans()) if normalize == "maybe" else normalize)
     aff = None
     if affine_range:
@@ -159,6 +166,8 @@ def spline(draw, kinds=("curve", "surface", "volume"), rational=None, max_p=4, m
                 aff = [draw(affine()) for _ in range(pdim)]
         else:
             aff = [draw(affine()) for _ in range(pdim)]
+    if aff and twin:
+        aff[1] = list(aff[0])
     if aff:
         kvs = [affine_kv(kv, a[0], a[1]) for kv, a in zip(kvs, aff)]
     if dims is None:
